@@ -61,6 +61,7 @@ type epubCfg struct {
 	Algo   string   `json:"algo"`
 	URI    string   `json:"uri"`
 	RFirst bool     `json:"rfirst"`
+	Rev    bool     `json:"rev"`
 }
 
 func epubMembers(e epubCfg) []zmember {
@@ -91,10 +92,16 @@ func epubMembers(e epubCfg) []zmember {
 			"aes256":    "http://www.w3.org/2001/04/xmlenc#aes256-cbc",
 			"unknown":   "http://example.org/secret-cipher",
 		}[e.Algo]
-		paths := map[string]string{"ch1": "OEBPS/ch1.xhtml", "ch2": "OEBPS/ch2.xht", "font": "OEBPS/fonts/f.otf", "font2": "OEBPS/fonts/g.ttf", "font3": "OEBPS/fonts/h.woff", "img": "OEBPS/img/i.png"}
+		paths := map[string]string{"ch1": "OEBPS/ch1.xhtml", "ch2": "OEBPS/ch2.xht", "nav": "OEBPS/nav.xhtml", "font": "OEBPS/fonts/f.otf", "font2": "OEBPS/fonts/g.ttf", "font3": "OEBPS/fonts/h.woff", "img": "OEBPS/img/i.png"}
 		var b strings.Builder
 		b.WriteString(`<?xml version="1.0" encoding="UTF-8"?><encryption xmlns="urn:oasis:names:tc:opendocument:xmlns:container" xmlns:enc="http://www.w3.org/2001/04/xmlenc#">`)
-		for _, k := range e.Enc {
+		order := append([]string{}, e.Enc...)
+		if e.Rev {
+			for i, j := 0, len(order)-1; i < j; i, j = i+1, j-1 {
+				order[i], order[j] = order[j], order[i]
+			}
+		}
+		for _, k := range order {
 			uri := paths[k]
 			if e.URI == "dotslash" {
 				uri = "./" + uri
